@@ -47,6 +47,8 @@ func runCase2(f []string) (string, bool) {
 		return runFrame(f), true
 	case "hist":
 		return runHist(f), true
+	case "hrec":
+		return runHrec(f), true
 	case "strhist":
 		return runStrHist(f), true
 	}
@@ -328,6 +330,10 @@ func oracleCase2(f []string) (string, bool) {
 	case "jsonstr":
 		// library oracle for C06/C17: encoding/json on the same token, after sanitising ours
 		return "-", true
+	case "hrec":
+		g := append([]string{}, f...)
+		g[2] = "nobuf"
+		return runHrec(g), true
 	case "hist":
 		// C14: every call on the shared buffer behaves as with no buffer at all
 		g := append([]string{}, f...)
@@ -435,4 +441,44 @@ func runStrHist(f []string) string {
 		bad = "STABLE"
 	}
 	return strings.Join(outs, " ; ") + " ; " + bad
+}
+
+// hrec <hex> <nobuf|nil|-|stack>: a recursive decoder in which EVERY level of the traversal (the
+// handler re-enters HandleArrayValues / HandleObjectValues for each nested container) shares one
+// Buffer - the heaviest form of "shared with the handler" in C14.  Scalars are declined (0).
+type recH struct {
+	buf *rjson.Buffer
+	n   int
+}
+
+func (h *recH) value(d []byte) (int, error) {
+	h.n++
+	tt, _, err := rjson.NextTokenType(d)
+	if err != nil {
+		return 0, err
+	}
+	switch tt {
+	case rjson.ArrayStartType:
+		return rjson.HandleArrayValues(d, h, h.buf)
+	case rjson.ObjectStartType:
+		return rjson.HandleObjectValues(d, h, h.buf)
+	}
+	return 0, nil
+}
+func (h *recH) HandleArrayValue(d []byte) (int, error)     { return h.value(d) }
+func (h *recH) HandleObjectValue(k, d []byte) (int, error) { return h.value(d) }
+
+func runHrec(f []string) string {
+	d := unhex(f[1])
+	h := &recH{}
+	if f[2] != "nobuf" {
+		h.buf = &rjson.Buffer{}
+		rjson.VerifSetBufferStack(h.buf, parseStack(f[2]))
+	}
+	h.n = -1
+	p, err := h.value(d)
+	if err != nil {
+		return "err"
+	}
+	return fmt.Sprintf("ok %d %d", p, h.n)
 }
